@@ -62,6 +62,7 @@
 #include "lpc/program.h"
 #include "src/interpret.h"
 #include "src/simul_efun.h"
+#include "rc.h"
 
 #include "lpc/include/function.h"
 
@@ -1393,6 +1394,9 @@ char* string_print_formatted (char *format_str, int argc, svalue_t * argv) {
         }
     }				/* end of for (fpos=0; 1; fpos++) */
 
+  /* the buffer is bounded by USHRT_MAX; the result is an LPC string and must respect MaxStringLength as well */
+  if (obuff.real_size > (size_t)CONFIG_INT (__MAX_STRING_LENGTH__))
+    sprintf_error (ERR_BUFF_OVERFLOW);
   outbuf_fix (&obuff);
   retvalue = obuff.buffer;
   obuff.buffer = 0;
